@@ -774,6 +774,16 @@ class Interp:
         if len(chunks) == 1 and isinstance(chunks[0], OB):
             c = chunks[0]
             f = B_int_le if endian == "little" else B_int_be
+            if self.bv is not None and getattr(self, "bv_bytes_direct", False) and isinstance(c.n, int) and 8 * c.n <= self.bv:
+                # bit-vector mode: assemble the value from the byte terms directly (no Int <-> BV detour through
+                # b_int_le, which the solver cannot see through): (b0 & 0xFF) | (b1 & 0xFF) << 8 | ...
+                bs = [self.ob_at(c, j) for j in range(c.n)]
+                order = bs if endian == "little" else list(reversed(bs))
+                W = self.bv
+                acc = z3.BitVecVal(0, W)
+                for j, b in enumerate(order):
+                    acc = acc | ((z3.Int2BV(b, W) & z3.BitVecVal(0xFF, W)) << (8 * j))
+                return self.mkbv(acc, 8 * c.n)
             term = f(c.t)
             self.p.assume(term >= 0)
             if isinstance(c.n, int):
